@@ -65,25 +65,48 @@ def _fid(x):
 
 
 class _Instr:
+    # per-contender state: one contender per thread (ordinary processes have just the main thread)
+    _TL = {"conn", "vtime", "phase", "net_in_refresh", "netcalls", "listing", "read_status", "enters", "populated",
+           "inside", "callkind"}
+
     def __init__(self, conn, spec):
-        self.conn = conn
+        import threading
+        object.__setattr__(self, "_tl", threading.local())
         self.spec = spec
         self.dir = os.path.realpath(spec["dir"])
-        self.vtime = float(spec.get("vtime", VT0))
+        self.gv = [float(spec.get("vtime", VT0))]   # the process's clock: the latest time any contender was told
+        self.reset(conn)
+
+    def __setattr__(self, n, v):
+        if n in _Instr._TL:
+            setattr(self._tl, n, v)
+        else:
+            object.__setattr__(self, n, v)
+
+    def __getattr__(self, n):
+        if n in _Instr._TL:
+            return getattr(object.__getattribute__(self, "_tl"), n)
+        raise AttributeError(n)
+
+    def reset(self, conn):
+        self.conn = conn
+        self.vtime = self.gv[0]
         self.phase = "normal"
         self.net_in_refresh = 0
         self.netcalls = 0
         self.listing = None       # the listing the lookup decision was based on
         self.read_status = None   # status of the file handed to load_schema
-        self.enters = []          # (write_time, "ok"/"CacheException"/..., lockfile locked by us?)
+        self.enters = []          # (write_time, "ok"/"CacheException"/..., stamp empty?)
         self.populated = False
-        self.inside = False       # between a successful CacheLock.__enter__ and the end of its __exit__
+        self.inside = 0           # number of CacheLock objects this contender is inside (successful __enter__ .. end
+        self.callkind = self.spec["kind"]                                            # of __exit__)
 
     # -- gate: report the next operation, wait for the controller
     def gate(self, *name):
-        self.conn.send(("gate", list(name), bool(self.inside)))
+        self.conn.send(("gate", list(name), int(self.inside)))
         msg = self.conn.recv()
         self.vtime = float(msg[1])
+        self.gv[0] = max(self.gv[0], self.vtime)
 
     def install(self):
         import hed.schema.hed_cache as hc
@@ -149,7 +172,7 @@ class _Instr:
                 return os.rmdir(x, *a, **k)
 
             def replace(s, a, b):
-                if I.spec.get("kind") == "move":
+                if I.callkind == "move":
                     I.gate("DReplace", I.findex(b))
                 elif os.path.realpath(os.path.dirname(b)) == I.dir and os.path.basename(b) in I.inst_files:
                     I.gate("Replace", I.findex(b))
@@ -274,7 +297,7 @@ class _Instr:
                 return getattr(time, n)
 
             def time(s):
-                return I.vtime
+                return I.gv[0]
 
         class StampFile:
             def __init__(s, f):
@@ -319,14 +342,15 @@ class _Instr:
                     I.enters.append([bool(lk.write_time), type(e).__name__, stamp_empty])
                 raise
             if mine:
-                I.inside = True
+                I.inside += 1
                 I.enters.append([bool(lk.write_time), "ok", stamp_empty])
-                if I.spec.get("kind") == "hold":
+                if I.callkind in ("hold", "nested") and I.inside == 1:
                     I.gate("Inside")
             return r
 
         def exit_(lk, *a):
-            if os.path.realpath(lk.cache_folder) == I.dir and not lk.write_time and I.spec.get("kind") != "hold":
+            if os.path.realpath(lk.cache_folder) == I.dir and not lk.write_time and \
+                    not (I.callkind in ("hold", "nested") and I.inside == 1):
                 I.gate("ExistsEnd")
                 I.gate("Exit")
                 I.populated = True
@@ -334,7 +358,7 @@ class _Instr:
                 return orig_exit(lk, *a)
             finally:
                 if os.path.realpath(lk.cache_folder) == I.dir:
-                    I.inside = False
+                    I.inside = max(0, I.inside - 1)
 
         orig_load = hio.load_schema
 
@@ -396,6 +420,8 @@ class _Instr:
     def run(self):
         """one call, or (kind 'seq') several calls made one after the other by this one OS process"""
         self.hc.set_cache_directory(self.dir)
+        if self.spec["kind"] == "threads":
+            return self.run_threads()
         calls = self.spec["calls"] if self.spec["kind"] == "seq" else [self.spec]
         out = None
         for k, call in enumerate(calls):
@@ -404,9 +430,27 @@ class _Instr:
                 self.conn.send(("calldone", out))
         return out
 
+    def run_threads(self):
+        """several contenders in THIS OS process, one thread each, each with its own channel to the controller"""
+        import threading
+
+        def agent(conn, call):
+            self.reset(conn)
+            try:
+                res = self.run_call(call)
+            except BaseException:  # noqa
+                res = {"harness_error": traceback.format_exc()[-1500:]}
+            conn.send(("done", res))
+
+        ths = [threading.Thread(target=agent, args=(c, a)) for c, a in zip(self.spec["conns"], self.spec["agents"])]
+        [t.start() for t in ths]
+        [t.join() for t in ths]
+        return None
+
     def run_call(self, call):
         hc, hl, hio = self.hc, self.hl, self.hio
         kind = call["kind"]
+        self.callkind = kind
         self.phase, self.net_in_refresh, self.netcalls = "normal", 0, 0
         self.listing, self.read_status, self.enters, self.populated = None, None, [], False
         out = {"kind": kind}
@@ -427,6 +471,21 @@ class _Instr:
                 with hl.CacheLock(self.dir, write_time=False):
                     pass
                 out["result"] = ["ret", "held"]
+            elif kind == "populate":
+                out["result"] = ["ret", hc.cache_local_versions(self.dir)]
+            elif kind == "nested":
+                # the same thread uses a second CacheLock on the directory while it holds the first
+                with hl.CacheLock(self.dir, write_time=False):
+                    if call.get("inner") == "lock":
+                        try:
+                            with hl.CacheLock(self.dir, write_time=False):
+                                out["inner"] = "entered"
+                        except hl.CacheException:
+                            out["inner"] = -1
+                    else:
+                        out["inner"] = hc.cache_local_versions(self.dir)
+                    self.gate("Inside2")
+                out["result"] = ["ret", "held"]
         except BaseException as e:  # noqa -- the exception IS the observation
             out["result"] = ["exc", type(e).__name__, str(getattr(e, "code", "")), str(e)[:160]]
         out.update(listing=self.listing, read_status=self.read_status, enters=self.enters,
@@ -443,8 +502,9 @@ def child_main(conn, spec):
     except BaseException:  # noqa
         res = {"harness_error": traceback.format_exc()[-1500:]}
     try:
-        conn.send(("done", res))
-        conn.close()
+        if spec["kind"] != "threads":
+            conn.send(("done", res))
+            conn.close()
     finally:
         os._exit(0)
 
@@ -571,6 +631,25 @@ def run_case(case):
             if spec["kind"] == "move":
                 spec["tmp"] = os.path.join(case["scratch"], "src-%s-%d.xml" % (case["id"], len(procs)))
                 shutil.copyfile(os.path.join(inst, files[spec["findex"]]), spec["tmp"])
+            if spec["kind"] == "threads":
+                # one OS process, one contender per thread, each with its own channel
+                pipes = [Pipe() for _ in spec["agents"]]
+                spec["conns"] = [b for _, b in pipes]
+                pid = os.fork()
+                if pid == 0:
+                    for a, _ in pipes:
+                        a.close()
+                    child_main(None, spec)
+                    os._exit(0)
+                for (a, b), ag in zip(pipes, spec["agents"]):
+                    b.close()
+                    p = _P()
+                    p.pid, p.conn, p.state, p.at, p.result, p.inside = pid, a, "live", None, None, 0
+                    p.calls = [ag]
+                    p.base = sum(len(q.calls) for q in procs)
+                    p.call, p.results = 0, []
+                    procs.append(p)
+                continue
             a, b = Pipe()
             pid = os.fork()
             if pid == 0:
@@ -579,7 +658,7 @@ def run_case(case):
                 os._exit(0)
             b.close()
             p = _P()
-            p.pid, p.conn, p.state, p.at, p.result, p.inside = pid, a, "live", None, None, False
+            p.pid, p.conn, p.state, p.at, p.result, p.inside = pid, a, "live", None, None, 0
             # model process ids: one per CALL (a 'seq' process makes several calls one after the other)
             p.calls = spec["calls"] if spec["kind"] == "seq" else [spec]
             p.base = sum(len(q.calls) for q in procs)
@@ -596,8 +675,11 @@ def run_case(case):
             n0 = len(out["events"])
             do_raw(ev)
             if len(out["events"]) > n0:
-                ins = [mp(q) for q in procs if q.state == "live" and q.inside]
-                out["inside"].append(ins)
+                ins = []
+                for q in procs:
+                    if q.state == "live":
+                        ins += [mp(q)] * int(q.inside)     # (a contender may be inside two CacheLock objects)
+                out["inside"] += [ins] * (len(out["events"]) - n0)
                 if len(ins) >= 2 and out["overlap"] is None:
                     out["overlap"] = {"step": n0, "event": out["events"][n0], "inside": ins,
                                       "at": [q.at for q in procs if q.state == "live" and q.inside],
@@ -617,11 +699,13 @@ def run_case(case):
             if k == "C":
                 os.kill(p.pid, signal.SIGKILL)
                 os.waitpid(p.pid, 0)
-                p.state = "dead"
-                p.inside = False
-                out["killed"].append([mp(p), p.at])
-                out["events"].append(["C", mp(p)])
-                out["gates"].append(None)
+                for q in procs:          # every contender (thread) of that OS process dies with it
+                    if q.pid == p.pid and q.state == "live":
+                        q.state = "dead"
+                        q.inside = 0
+                        out["killed"].append([mp(q), q.at])
+                        out["events"].append(["C", mp(q)])
+                        out["gates"].append(None)
                 return
             out["events"].append(["R", mp(p)])
             out["gates"].append(p.at)
@@ -699,10 +783,10 @@ def _wait(p, timeout=120):
         return _wait(p, timeout)
     if msg[0] == "gate":
         p.at = msg[1]
-        p.inside = bool(msg[2])
+        p.inside = int(msg[2])
     else:
         p.state = "done"
-        p.inside = False
+        p.inside = 0
         p.result = msg[1]
 
 
@@ -732,7 +816,7 @@ def mprocs(case):
     """the model's processes: one per call (a 'seq' OS process makes several calls one after the other)"""
     out = []
     for s in case["procs"]:
-        out += s["calls"] if s["kind"] == "seq" else [s]
+        out += s["calls"] if s["kind"] == "seq" else s["agents"] if s["kind"] == "threads" else [s]
     return out
 
 
@@ -869,7 +953,15 @@ def oracle(case, out, res, nfiles):
             else:
                 res.report("load-succeeds", cid, f"proc {i}: outcome {o} {r['result']} listing={listing} "
                                                  f"read={r.get('read_status')}")
-        elif spec["kind"] == "refresh":
+        if spec["kind"] in ("hold", "populate", "nested", "refresh", "load"):
+            # clause: a holder that cannot get the lock gives up with the documented cache error (nothing else)
+            for ent in r.get("enters") or []:
+                if ent[1] not in ("ok", "CacheException"):
+                    res.report("lock-timeout-cache-error", cid, f"contender {i}: CacheLock.__enter__ raised {ent[1]}")
+        if spec["kind"] == "nested" and "inner" in r and r["inner"] != -1:
+            res.report("lock-exclusive", cid, f"contender {i} holds the lock and a second CacheLock of the SAME thread "
+                                              f"on that directory did not give up with the cache error: {r.get('inner')}")
+        if spec["kind"] == "refresh":
             # clause: a refresh attempted within the refresh interval is skipped
             st = init.get("stamp", "N")
             if isinstance(st, list) and spec.get("expect_skip"):
@@ -1021,6 +1113,37 @@ def build_cases(rng, tier, files, th, wide):
         [["R", 2]] * 5)
     add("lock queue: holder killed while B waits, C arrives later", [L, L, L],
         [["R", 0], ["R", 1], ["R", 2]] + [["R", 0]] * 6 + [["R", 1]] * 2 + [["C", 0]] + [["R", 1]] * 4 + [["R", 2]] * 5)
+    # -- where the contenders live: other OS processes, other THREADS of one process, a second CacheLock object of the
+    #    same thread (nested); mixed three-party orders.  (contender index = position in the flattened list)
+    H, P_, N1, N2 = {"kind": "hold"}, {"kind": "populate"}, {"kind": "nested", "inner": "populate"}, \
+        {"kind": "nested", "inner": "lock"}
+    T = lambda *ags: {"kind": "threads", "agents": list(ags)}          # noqa: E731
+    add("same process, two threads: A holds, B tries", [T(H, H)], [["R", 0]] * 2 + [["R", 1]] * 5)
+    add("same thread, second CacheLock while the first is held", [T(N1)], [["R", 0]] * 8)
+    add("same thread, nested with CacheLock", [T(N2)], [["R", 0]] * 8)
+    add("A holds; B in A's process enters and leaves; Q in another process must time out",
+        [T(H, P_), H], [["R", 0]] * 2 + [["R", 1]] * (pop + 4) + [["R", 2]] * 5)
+    for k in range(10 if tier == "quick" else 80):
+        groups = rng.choice([[2], [2, 1], [1, 2], [3], [2, 2], [1, 1, 2], [2, 1, 1]])
+        ps, flat = [], []
+        for g in groups:
+            ags = [dict(rng.choice([H, H, P_, {"kind": "refresh"}])) for _ in range(g)]
+            if rng.random() < 0.25:
+                ags[0] = dict(rng.choice([N1, N2]))
+            ps.append(T(*ags) if g > 1 or rng.random() < 0.3 else ags[0])
+            flat += ags
+        n = len(flat)
+        order = list(range(n))
+        rng.shuffle(order)
+        a = order[0]
+        sch = [["R", a]] * 2                                  # a is inside (hold / nested stay, populate goes on)
+        for o in order[1:]:
+            sch += [["R", o]] * rng.choice([1, 2, 4, 5, pop + 4])
+        if rng.random() < 0.2:
+            sch.append(["C", rng.randrange(n)])
+        for _ in range(rng.randint(0, 20)):
+            sch.append(["R", rng.randrange(n)])
+        add("contenders in threads / nested / other processes, random arrivals", ps, sch)
     # -- a holder stopped INSIDE its population (also between a temporary copy and its rename) while every other
     #    contender, which has listed the folder before, performs its next operations; then the holder goes on
     g_tmp = 7 if FIXED else 5         # list enter [acquire] exists open write write -> next: rename / exists
@@ -1243,7 +1366,8 @@ def judge(cases, outs, res, model_ok, nfiles, th):
                 res.report("refresh-within-interval-skipped", {"id": case["id"], "what": case["what"], "second_skip": True,
                                                                "procs": case["procs"], "schedule": case["schedule"]},
                            f"second refresh 5 s after the first: {r.get('result')} netcalls={r.get('netcalls')}")
-        if not out.get("external") and all(s["kind"] != "hold" for s in case["procs"]):
+        if not out.get("external") and all(s["kind"] not in ("hold", "threads", "populate", "nested")
+                                           for s in case["procs"]):
             usable.append((case, out))
     if model_ok:
         exe = C.build_driver("c19")
